@@ -225,6 +225,7 @@ pub fn run(cases: &[Value], trace: &mut Trace, seed: u64) {
     for (k, case) in cases.iter().enumerate() {
         let mut rng = Rng::new(seed ^ (k as u64).wrapping_mul(0x1234567));
         let adapter = case["adapter"].as_str().unwrap_or("mutex");
+        let watch = FdWatch::start();
         let rig = ServerRig::new(adapter);
         apply_dev(&rig.core, &case["dev"]);
         trace.emit(json!({"ev": "reset", "id": case["id"], "dev": case["dev"], "adapter": adapter}));
@@ -236,6 +237,15 @@ pub fn run(cases: &[Value], trace: &mut Trace, seed: u64) {
                 break;
             }
         }
+        // teardown: drop the endpoint, the handler and everything it was lent
+        {
+            let mut sc = rig.core.s.lock().unwrap();
+            sc.keep.clear();
+            sc.backends.clear();
+            sc.gpus.clear();
+            sc.ret_file = None;
+        }
         rig.finish();
+        trace.emit(watch.finish());
     }
 }
